@@ -11,6 +11,11 @@ if x.get('level_text_addition') and x['level_text_addition'] not in c.get('level
 def drop(lst, subs): return [i for i in lst if not any(s[:60] in i for s in subs)]
 c['partial'] = drop(c.get('partial', []), x.get('partial_remove', [])) + [a for a in x.get('partial_add_suggested', x.get('partial_add', [])) if a not in c.get('partial', [])]
 c['trusted'] = drop(c.get('trusted', []), x.get('trusted_remove', []))
+c['assumptions'] = drop(c.get('assumptions', []), x.get('assumptions_remove', [])) + [a for a in x.get('assumptions_add', []) if a not in c.get('assumptions', [])]
+c['trusted'] = c['trusted'] + [a for a in x.get('trusted_add', []) if a not in c['trusted']]
+if x.get('level_note_addition') and x['level_note_addition'] not in c.get('level_note', ''): c['level_note'] = c.get('level_note', '') + ' ' + x['level_note_addition']
+if x.get('rule_addition') and x['rule_addition'] not in c.get('rule', ''): c['rule'] = c.get('rule', '') + ' ' + x['rule_addition']
+c['functions'] = c.get('functions', []) + [f for f in x.get('functions_add', []) if f not in c.get('functions', [])]
 if x.get('functions_tied'): c['functions_tied'] = sorted(set(c.get('functions_tied', []) + x['functions_tied']))
 json.dump(P, open('props.json', 'w'), indent=1)
 print(pid, 'extra modules:', c.get('extra_proof_modules'))
